@@ -102,7 +102,8 @@ func (t *Dense) WriteNpy(w io.Writer) (err error) {
 			}
 		}
 	} else {
-		for i := 0; i < t.len(); i++ {
+		it := FlatIteratorFromDense(t)
+		for i, err := it.Next(); err == nil; i, err = it.Next() {
 			bw.w(t.Get(i))
 		}
 	}
